@@ -37,10 +37,11 @@ enum {
 	K_COY,		/* /Ny */
 	K_BD,		/* business day of the month Nb (on bizda values) */
 	K_COBD,		/* /1b */
+	K_WK,		/* ISO week number Nw (on week dates) */
 	NKIND
 };
 static const char *const kind_name[NKIND] = {"weekday", "month-name", "month-number", "day-of-month", "hour", "minute", "second",
-					     "/Nh", "/Nm", "/Ns", "/1d", "/Nmo", "/Ny", "business-day", "/1b"};
+					     "/Nh", "/Nm", "/Ns", "/1d", "/Nmo", "/Ny", "business-day", "/1b", "week-number"};
 
 struct spec_s {
 	int kind, n, down;
@@ -76,6 +77,7 @@ spec_make(struct spec_s *s, int kind, int n, int down)
 	case K_COY: snprintf(s->text, sizeof(s->text), "/%s%dy", sg, n); break;
 	case K_BD: snprintf(s->text, sizeof(s->text), "%s%db", sg, n); break;
 	case K_COBD: snprintf(s->text, sizeof(s->text), "/%s%db", sg, n); break;
+	case K_WK: snprintf(s->text, sizeof(s->text), "%s%dw", sg, n); break;
 	}
 	/* exactly what main() does with one RNDSPEC */
 	if (dt_io_strpdtrnd(&st, s->text) >= 0 && st.ndurs == 1U && !__strpdtdur_more_p(&st)) {
@@ -92,8 +94,9 @@ spec_make(struct spec_s *s, int kind, int n, int down)
 /* FAM_SX: a date-time given and printed as Unix epoch seconds (-i %s -f %s), held as DT_SEXY */
 /* FAM_B: a date given and printed as business day of the month (2012-03-05b), held as DT_BIZDA;
  * encoded as the rd of that day like FAM_D */
-enum { FAM_D, FAM_T, FAM_DT, FAM_SX, FAM_B };
-static const char *const fam_name[] = {"date", "time", "datetime", "epoch", "bizda"};
+/* FAM_W: a date given and printed as ISO week date (2012-W02-5), held as DT_YWD; encoded as rd */
+enum { FAM_D, FAM_T, FAM_DT, FAM_SX, FAM_B, FAM_W };
+static const char *const fam_name[] = {"date", "time", "datetime", "epoch", "bizda", "ywd"};
 
 static int
 rd_ok(int64_t rd)
@@ -134,6 +137,29 @@ walk_days(int rd, int kind, int n, int down, int next, int clamp)
 				return r;
 			}
 			break;
+		}
+	}
+	return NONE;
+}
+
+/* week-number targets on week dates: walk week by week (the weekday stays) on the requested side
+ * until the ISO week number is N.  *clamped gets the first hit of the reading "week 53 of a
+ * 52-week year is that year's last week", the return value the first hit of the exact reading */
+static int64_t
+walk_weeks(int rd, int n, int down, int next, int64_t *clamped)
+{
+	int step = down ? -7 : 7;
+	*clamped = NONE;
+	for (int64_t r = next ? rd + step : rd, cnt = 0; rd_ok(r) && cnt < 800; r += step, cnt++) {
+		const struct rc_day *p = rc_get((int)r);
+		if (*clamped == NONE && n == 53 && p->isow == 52 && rc_isoweeks(p->isoy) == 52) {
+			*clamped = r;
+		}
+		if (p->isow == n) {
+			if (*clamped == NONE) {
+				*clamped = r;
+			}
+			return r;
 		}
 	}
 	return NONE;
@@ -271,6 +297,27 @@ oracle(int fam, int64_t in, const struct spec_s *s, int next, int64_t *out, cons
 		}
 		fam = FAM_DT;
 	}
+	if (fam == FAM_W) {
+		int64_t cl;
+		if (s->kind != K_WK) {
+			*skip = "target other than Nw on a week date";
+			return 1;
+		}
+		r = walk_weeks((int)in, s->n, s->down, next, &cl);
+		if (cl != r) {
+			*skip = "week 53 in a year of 52 weeks: exact vs. clamped reading differ";
+			return 1;
+		}
+		if (r == NONE) {
+			return 2;
+		}
+		*out = r;
+		return 0;
+	}
+	if (s->kind == K_WK) {
+		*skip = "Nw on a value not held as week date";
+		return 1;
+	}
 	if (fam == FAM_B) {
 		if (s->kind != K_BD) {
 			*skip = "target other than Nb on a business-day-of-month value";
@@ -392,6 +439,13 @@ fmt_inst(char *buf, size_t bsz, int fam, int64_t v)
 		snprintf(buf, bsz, "%02d:%02d:%02d", (int)(v / 3600), (int)(v / 60 % 60), (int)(v % 60));
 	} else if (fam == FAM_SX) {
 		snprintf(buf, bsz, "%lld", (long long)(v - (int64_t)RC_RD_1970 * 86400));
+	} else if (fam == FAM_W) {
+		const struct rc_day *p = rc_get((int)v);
+		if (p == NULL) {
+			snprintf(buf, bsz, "(out of range)");
+		} else {
+			snprintf(buf, bsz, "%04d-W%02d-%d", p->isoy, p->isow, p->wd);
+		}
 	} else if (fam == FAM_B) {
 		const struct rc_day *p = rc_get((int)v);
 		if (p == NULL) {
@@ -426,6 +480,27 @@ parse_out(const char *s, int fam, int64_t *out)
 		}
 		*out = (int64_t)e + (int64_t)RC_RD_1970 * 86400;
 		return (*out >= 0 && rd_ok(*out / 86400)) ? 0 : 2;
+	}
+	case FAM_W: {
+		int jan4, mon1;
+		int64_t r;
+		if (sscanf(s, "%d-W%d-%d%n", &y, &m, &d, &n) != 3 || s[n]) {
+			return 1;
+		}
+		if (d == 0) {
+			d = 7;
+		}
+		if (y < RC_MIN_YEAR || y > RC_MAX_YEAR || m < 1 || m > 53 || d < 1 || d > 7) {
+			return 2;
+		}
+		jan4 = rc_rd(y, 1, 4);
+		mon1 = jan4 - (rc_get(jan4)->wd - 1);
+		r = (int64_t)mon1 + (m - 1) * 7 + (d - 1);
+		if (!rd_ok(r) || rc_get((int)r)->isoy != y || rc_get((int)r)->isow != m) {
+			return 2;
+		}
+		*out = r;
+		return 0;
 	}
 	case FAM_B: {
 		int r0;
@@ -477,7 +552,7 @@ parse_out(const char *s, int fam, int64_t *out)
 	return 0;
 }
 
-static const char *const fam_fmt[] = {"%Y-%m-%d", "%H:%M:%S", "%Y-%m-%dT%H:%M:%S", "%s", "%Y-%m-%db"};
+static const char *const fam_fmt[] = {"%Y-%m-%d", "%H:%M:%S", "%Y-%m-%dT%H:%M:%S", "%s", "%Y-%m-%db", NULL};
 
 /* ------------------------------------------------------------- one rounding */
 static uint64_t *c_eval, *c_trans, *c_nontriv, *c_idem, *c_strict;
@@ -531,6 +606,7 @@ do_round(int fam, int64_t in, struct dt_dt_s v, const struct spec_s *s, int si, 
 		if (fam == FAM_T ? (s->down ? exp > in : exp < in)
 		    : fam == FAM_SX ? (exp / 86400 != in / 86400 || in < (int64_t)RC_RD_1970 * 86400)
 		    : (fam == FAM_D || fam == FAM_B) ? rc_get((int)exp)->m != rc_get((int)in)->m
+		    : fam == FAM_W ? rc_get((int)exp)->isoy != rc_get((int)in)->isoy
 		    : exp / 86400 != in / 86400) {
 			/* ... and the result wraps past midnight / lies in another month / on another day */
 			++*c_nontriv;
@@ -557,6 +633,19 @@ do_round(int fam, int64_t in, struct dt_dt_s v, const struct spec_s *s, int si, 
 			what = "not the nearest target on the requested side";
 		}
 	}
+	if (what == NULL && fam == FAM_W) {
+		/* the same value printed as a Gregorian date: a week date that carries a stale
+		 * offset prints right as week date and wrong here */
+		char gf[64];
+		int64_t of = NONE;
+		memset(gf, 0, sizeof(gf));
+		dt_strfdt(gf, sizeof(gf), "%Y-%m-%d", r);
+		++*c_eval;
+		if (parse_out(gf, FAM_D, &of) || of != exp) {
+			what = "%F of the result is not the day its week date names";
+			snprintf(got + strlen(got), sizeof(got) - strlen(got), " = %s", gf);
+		}
+	}
 	if (what == NULL && next) {
 		++*c_strict;
 	}
@@ -579,7 +668,7 @@ do_round(int fam, int64_t in, struct dt_dt_s v, const struct spec_s *s, int si, 
 	}
 	if (what) {
 		class_key(key, sizeof(key), fam, s, next, what);
-		ex_viol(key, (double)(fam == FAM_D || fam == FAM_B ? in : fam == FAM_T ? in : in / 86400), cas, cmd,
+		ex_viol(key, (double)(fam == FAM_D || fam == FAM_B || fam == FAM_W ? in : fam == FAM_T ? in : in / 86400), cas, cmd,
 			"%s: expected %s, got %s", cmd, etxt, got);
 		if (getenv("C16_TRACE")) {
 			fprintf(stderr, "FAIL %s | %s | exp %s got %s\n", cmd, what, etxt, got);
@@ -597,6 +686,7 @@ static int date_lo, date_hi;	/* spec index ranges: date targets */
 static int time_lo, time_hi;	/* time targets */
 static int bd_lo, bd_hi;	/* Nb targets (bizda values) */
 static int cobd_lo, cobd_hi;	/* /1b */
+static int wk_lo, wk_hi;	/* Nw targets (week dates) */
 
 static void
 add_spec(int kind, int n)
@@ -665,6 +755,11 @@ build_specs(void)
 	cobd_lo = nspec;
 	add_spec(K_COBD, 1);
 	cobd_hi = nspec;
+	wk_lo = nspec;
+	for (int w = 1; w <= 53; w++) {
+		add_spec(K_WK, w);
+	}
+	wk_hi = nspec;
 }
 
 /* is the sign of a zero target expressible? "-0m" is a different command line from "0m"
@@ -691,7 +786,7 @@ do_input(int fam, int64_t in, int lo, int hi)
 		{
 			char key[64];
 			snprintf(key, sizeof(key), "%s: input not accepted by the parser", fam_name[fam]);
-			ex_viol(key, (double)(fam == FAM_D || fam == FAM_T || fam == FAM_B ? in : in / 86400), "", fam == FAM_SX ? "dround -i %s 0 /1m" : NULL, "'%s' is not parsed", txt);
+			ex_viol(key, (double)(fam == FAM_D || fam == FAM_T || fam == FAM_B || fam == FAM_W ? in : in / 86400), "", fam == FAM_SX ? "dround -i %s 0 /1m" : NULL, "'%s' is not parsed", txt);
 		}
 		return;
 	}
@@ -1144,7 +1239,7 @@ main(int argc, char *argv[])
 			printf("  binary '%s' level S '%s'\n", line, got);
 			return ex_replay_result(strcmp(line, got) != 0, "binding %s %s on %s", bind_specs[k][0], bind_specs[k][1], txt);
 		}
-		if (sscanf(ex.cas, "%d %lld %d %d", &fam, &in, &si, &next) != 4 || fam < 0 || fam > 4 || si < 0 || si >= nspec) {
+		if (sscanf(ex.cas, "%d %lld %d %d", &fam, &in, &si, &next) != 4 || fam < 0 || fam > 5 || si < 0 || si >= nspec) {
 			return ex_replay_result(1, "bad case string '%s'", ex.cas);
 		}
 		{
@@ -1169,14 +1264,14 @@ main(int argc, char *argv[])
 		"on the requested side; rounding the result again (no -n) must not move it. Readings: a day-of-month target beyond a month's end is judged "
 		"only when the exact and the clamped reading agree; several RNDSPECs in one call: the single-spec model applied left to right (--help), and the whole "
 		"list once more on the tool's own result; Nb (business day of the month, 1..20) on values held as business day of the month and /1b (grid = Mon-Fri) "
-		"are judged; not enumerated: Nq (the help does not say which month/day of the quarter is meant), Ny (refused by the tool: years do not recur), "
+		"are judged; Nw (ISO week number 1..53, accepted by the tool and pinned by test/dround.030) on week dates: nearest date on the requested side in week N with the weekday kept, week 53 of a 52-week year judged only where the exact and the clamped reading agree; not enumerated: Nq (the help does not say which month/day of the quarter is meant), Ny (refused by the tool: years do not recur), "
 		"Nw (not in the help's list of suffixes), the documented spelling `bd' (rejected by the parser, see notes); /Nmo only for N | 12; results beyond 1601..4095 skipped. non-trivial = the rounded value is in another month (dates), on "
 		"another day (date-times), or beyond midnight (times)");
 	ex_meta("bound", "%s: dates: all days %d-01-01..%d-12-31 x {7 weekday names, 12 month names, 12 month numbers, day-of-month 1..31, /1d, /{1,2,3,4,6,12}mo, "
 		"/{1,2,4,5,10,100}y} x {up,down} x {-,-n}; times: all 86,400 seconds x {0..23h, 0..59m, 0..59s, /{1,2,3,4,6,8,12,24}h, /{12 divisors of 60}m, "
 		"/{12 divisors}s} x {up,down} x {-,-n}; date-times: %d boundary days x 7 times x all of the above; the same instants given as Unix epoch seconds (-i %%s) x the /N time targets; main(): N = 0..70 x {h,m,s,mo,d} x {N, /N} x "
 		"{up,down} x {-,-n} x 3 inputs; lists: all ordered pairs%s over %d RNDSPECs of mixed kinds x {-,-n} on %d days (the boundary days before 4094) x 7 times (date-times) and on the days alone "
-		"(date specs only); bizda: every Mon-Fri day of the tier x 1..20b x {up,down} x {-,-n}; binding: %d RNDSPECs x all days of the tier on stdin of the dround binary",
+		"(date specs only); bizda: every Mon-Fri day of the tier x 1..20b x {up,down} x {-,-n}; week dates: every day of the tier x 1..53w x {up,down} x {-,-n}, observed as week date and as %%F; binding: %d RNDSPECs x all days of the tier on stdin of the dround binary",
 		ex.thorough ? "thorough" : "quick", ylo, yhi, NBDAYS, ex.thorough ? " and triples" : "", NMDEF, NBDAYS - 3, NBIND);
 	ex_meta("binding", "dround binary of the same build reading all days of the tier from stdin for %d (option, RNDSPEC) pairs, byte-compared with the level-S observation", NBIND);
 
@@ -1191,6 +1286,7 @@ main(int argc, char *argv[])
 			if (rc_get(rd)->isbd) {
 				do_input(FAM_B, rd, bd_lo, bd_hi);
 			}
+			do_input(FAM_W, rd, wk_lo, wk_hi);
 		}
 		++*c_traces;
 	}
